@@ -46,11 +46,21 @@ func noteRetryTaskQueuedUnder(resource string, rule *Rule) {
 	retryerMutex.Unlock()
 }
 
-func retryTaskOfReplacedRule(resource string) bool {
+// scheduleRetryTask is what the retryer does with a task from its queue. One critical section from the look at
+// the rule in force to the armed timers: the rule manager voids the schedule (voidRetrySchedule) under the same
+// lock, after it has published a rule - so a load either finds the timers armed, and voids them, or has
+// published before the look, and the task is seen to be one of a replaced rule. (In three sections of their own,
+// a load in between left a loop armed under the new epoch with the parameters of the passive rule.)
+func scheduleRetryTask(t task) {
 	retryerMutex.Lock()
-	queuedUnder := retryTasksQueuedUnder[resource]
-	retryerMutex.Unlock()
-	return queuedUnder != nil && queuedUnder != getOutlierRuleOfResource(resource)
+	defer retryerMutex.Unlock()
+	rule := getOutlierRuleOfResource(t.resource) // (read once: the parameters come from the rule that was looked at)
+	if queuedUnder := retryTasksQueuedUnder[t.resource]; queuedUnder != nil && queuedUnder != rule {
+		return
+	}
+	if retryer := retryerOfResourceLocked(t.resource, rule); retryer != nil {
+		retryer.scheduleNodes(t.nodes)
+	}
 }
 
 func init() {
@@ -61,12 +71,7 @@ func init() {
 			}
 		}()
 		for task := range retryerCh {
-			if retryTaskOfReplacedRule(task.resource) {
-				continue
-			}
-			if retryer := getRetryerOfResource(task.resource); retryer != nil {
-				retryer.scheduleNodes(task.nodes)
-			}
+			scheduleRetryTask(task)
 		}
 	}()
 }
@@ -88,7 +93,12 @@ type Retryer struct {
 func getRetryerOfResource(resource string) *Retryer {
 	retryerMutex.Lock()
 	defer retryerMutex.Unlock()
-	rule := getOutlierRuleOfResource(resource)
+	return retryerOfResourceLocked(resource, getOutlierRuleOfResource(resource))
+}
+
+// retryerOfResourceLocked returns the retryer of the resource with the parameters of rule, the rule in force.
+// The caller holds retryerMutex.
+func retryerOfResourceLocked(resource string, rule *Rule) *Retryer {
 	if rule == nil {
 		// The rule was removed after the task had been queued. A retryer without a rule has no
 		// check function (calling it panics in the timer goroutine) and must not be cached.
@@ -123,8 +133,8 @@ func getRetryerOfResource(resource string) *Retryer {
 // found healthy had its breaker under the rule in force closed without any request.
 func voidRetrySchedule(resource string) {
 	retryerMutex.Lock()
+	defer retryerMutex.Unlock()
 	retryer := retryers[resource]
-	retryerMutex.Unlock()
 	if retryer == nil {
 		return
 	}
